@@ -1,111 +1,86 @@
 //go:build go1.21
 
 // Package vatomic mirrors the subset of sync/atomic the repository uses; every
-// operation is a scheduling point.
+// operation is a scheduling point followed by the real atomic operation.
 package vatomic
 
 import (
+	"sync/atomic"
+
 	"github.com/samaritan-proxy/samaritan/verifrt/sched"
 )
 
 // Value mirrors atomic.Value.
 type Value struct {
-	v interface{}
+	v atomic.Value
 }
 
 func (v *Value) Load() interface{} {
 	sched.Op("atomic-load", v)
-	return v.v
+	return v.v.Load()
 }
 
 func (v *Value) Store(x interface{}) {
-	if x == nil {
-		panic("sync/atomic: store of nil value into Value")
-	}
 	sched.Op("atomic-store", v)
-	v.v = x
+	v.v.Store(x)
 }
 
 func AddInt32(addr *int32, delta int32) int32 {
 	sched.Op("atomic-add", addr)
-	*addr += delta
-	return *addr
+	return atomic.AddInt32(addr, delta)
+}
+func LoadInt32(addr *int32) int32     { sched.Op("atomic-load", addr); return atomic.LoadInt32(addr) }
+func StoreInt32(addr *int32, v int32) { sched.Op("atomic-store", addr); atomic.StoreInt32(addr, v) }
+func SwapInt32(addr *int32, v int32) int32 {
+	sched.Op("atomic-swap", addr)
+	return atomic.SwapInt32(addr, v)
+}
+func CompareAndSwapInt32(addr *int32, old, new int32) bool {
+	sched.Op("atomic-cas", addr)
+	return atomic.CompareAndSwapInt32(addr, old, new)
 }
 
 func AddInt64(addr *int64, delta int64) int64 {
 	sched.Op("atomic-add", addr)
-	*addr += delta
-	return *addr
+	return atomic.AddInt64(addr, delta)
+}
+func LoadInt64(addr *int64) int64     { sched.Op("atomic-load", addr); return atomic.LoadInt64(addr) }
+func StoreInt64(addr *int64, v int64) { sched.Op("atomic-store", addr); atomic.StoreInt64(addr, v) }
+func SwapInt64(addr *int64, v int64) int64 {
+	sched.Op("atomic-swap", addr)
+	return atomic.SwapInt64(addr, v)
+}
+func CompareAndSwapInt64(addr *int64, old, new int64) bool {
+	sched.Op("atomic-cas", addr)
+	return atomic.CompareAndSwapInt64(addr, old, new)
 }
 
 func AddUint32(addr *uint32, delta uint32) uint32 {
 	sched.Op("atomic-add", addr)
-	*addr += delta
-	return *addr
+	return atomic.AddUint32(addr, delta)
+}
+func LoadUint32(addr *uint32) uint32     { sched.Op("atomic-load", addr); return atomic.LoadUint32(addr) }
+func StoreUint32(addr *uint32, v uint32) { sched.Op("atomic-store", addr); atomic.StoreUint32(addr, v) }
+func SwapUint32(addr *uint32, v uint32) uint32 {
+	sched.Op("atomic-swap", addr)
+	return atomic.SwapUint32(addr, v)
+}
+func CompareAndSwapUint32(addr *uint32, old, new uint32) bool {
+	sched.Op("atomic-cas", addr)
+	return atomic.CompareAndSwapUint32(addr, old, new)
 }
 
 func AddUint64(addr *uint64, delta uint64) uint64 {
 	sched.Op("atomic-add", addr)
-	*addr += delta
-	return *addr
+	return atomic.AddUint64(addr, delta)
 }
-
-func LoadInt32(addr *int32) int32    { sched.Op("atomic-load", addr); return *addr }
-func LoadInt64(addr *int64) int64    { sched.Op("atomic-load", addr); return *addr }
-func LoadUint32(addr *uint32) uint32 { sched.Op("atomic-load", addr); return *addr }
-func LoadUint64(addr *uint64) uint64 { sched.Op("atomic-load", addr); return *addr }
-
-func StoreInt32(addr *int32, v int32)    { sched.Op("atomic-store", addr); *addr = v }
-func StoreInt64(addr *int64, v int64)    { sched.Op("atomic-store", addr); *addr = v }
-func StoreUint32(addr *uint32, v uint32) { sched.Op("atomic-store", addr); *addr = v }
-func StoreUint64(addr *uint64, v uint64) { sched.Op("atomic-store", addr); *addr = v }
-
-func CompareAndSwapInt32(addr *int32, old, new int32) bool {
-	sched.Op("atomic-cas", addr)
-	if *addr == old {
-		*addr = new
-		return true
-	}
-	return false
+func LoadUint64(addr *uint64) uint64     { sched.Op("atomic-load", addr); return atomic.LoadUint64(addr) }
+func StoreUint64(addr *uint64, v uint64) { sched.Op("atomic-store", addr); atomic.StoreUint64(addr, v) }
+func SwapUint64(addr *uint64, v uint64) uint64 {
+	sched.Op("atomic-swap", addr)
+	return atomic.SwapUint64(addr, v)
 }
-
-func CompareAndSwapInt64(addr *int64, old, new int64) bool {
-	sched.Op("atomic-cas", addr)
-	if *addr == old {
-		*addr = new
-		return true
-	}
-	return false
-}
-
-func CompareAndSwapUint32(addr *uint32, old, new uint32) bool {
-	sched.Op("atomic-cas", addr)
-	if *addr == old {
-		*addr = new
-		return true
-	}
-	return false
-}
-
 func CompareAndSwapUint64(addr *uint64, old, new uint64) bool {
 	sched.Op("atomic-cas", addr)
-	if *addr == old {
-		*addr = new
-		return true
-	}
-	return false
-}
-
-func SwapInt32(addr *int32, new int32) int32 {
-	sched.Op("atomic-swap", addr)
-	old := *addr
-	*addr = new
-	return old
-}
-
-func SwapInt64(addr *int64, new int64) int64 {
-	sched.Op("atomic-swap", addr)
-	old := *addr
-	*addr = new
-	return old
+	return atomic.CompareAndSwapUint64(addr, old, new)
 }
